@@ -150,6 +150,7 @@ fn prf_type(rng: &mut Rng, big: bool) -> Type {
             vector_type(1 + rng.below(3), array_type(vec![3, 3], BIT)),
         ]),
         6 | 7 => random_type(rng, 2),
+        8 if rng.chance(1, 2) => vector_type(2 + rng.below(3), array_type(vec![1 + rng.below(3)], *rng.pick(&[UINT64, INT64, UINT128]))),
         8 => vector_type(1 + rng.below(5), tuple_type(vec![scalar_type(BIT), array_type(vec![1 + rng.below(12)], *rng.pick(&ALL_ST))])),
         9 => array_type(vec![*rng.pick(&[191u64, 192, 193, 200])], UINT8),
         10 => array_type(vec![*rng.pick(&[56u64, 57, 70])], UINT64),
@@ -630,6 +631,10 @@ fn prng_round(rng: &mut Rng, out: &mut Out, big: bool, emit_cases: bool) {
             (Op::Value(t), Outcome::Ok(Obs::Value(v))) => {
                 if !v.check_type(t.clone()).unwrap_or(false) || !in_domain(v, t) {
                     out.violation("prng-out-of-domain", input.clone(), format!("value {} is not a valid encoding of {}", bvalue(v), t));
+                } else if crate::c14::repeats_across_vector(v, t) {
+                    // every leaf is drawn from fresh stream bytes: a vector of >= 2 elements of >= 64 bits
+                    // holding one value everywhere has probability <= 2^-64
+                    out.violation("prng-vector-elements-identical", input.clone(), format!("value {} of type {} repeats one element", bvalue(v), t));
                 } else {
                     out.oracle_ok();
                 }
